@@ -99,12 +99,12 @@ def on_grid_harmonic(x, rel=1e-9):
         return None
     mag = np.abs(dft(x))
     k = int(np.argmax(mag[1:n_pts // 2])) + 1
-    if not mag[k] > 0:
+    if not (mag[k] > 0 and math.isfinite(mag[k])):
         return None
-    rest = mag.copy()
+    rest = mag / mag[k]                 # normalised first: no under/overflow for amplitudes 1e-150 .. 1e150
     rest[k] = 0.0
     rest[n_pts - k] = 0.0
-    if math.sqrt(float(np.sum(rest ** 2))) <= rel * mag[k]:
+    if math.sqrt(float(np.sum(rest ** 2))) <= rel:
         return k
     return None
 
